@@ -104,3 +104,26 @@ func verifH_C02_read_cache_relative_locations() {
 	verifAssert(first == "first directory" && second == "second directory", "C02 read cache: a relative location is read anew, so each load resolves to the files it was given")
 	verifReach("end")
 }
+
+//verif:harness id=C02 tier=quick,thorough witness=end bounds="percent-encoding in the fragment: a file (the document itself, or another file) has the components 'a%20b' and 'a b' (and 'x~y', 'x/y'); references spell them '#/components/schemas/a%2520b' (the name with a percent sign), 'a%20b' (the name with a blank), 'x~0y', 'x~1y', in internal and in external form: each resolves to the component its once-decoded pointer names, the same in both forms"
+func verifH_C02_fragment_percent_encoding() {
+	comps := `"a%20b":{"description":"percent"},"a b":{"description":"blank"},"x~y":{"description":"tilde"},"x/y":{"description":"slash"}`
+	type tc struct{ frag, want string }
+	cases := []tc{{"a%2520b", "percent"}, {"a%20b", "blank"}, {"x~0y", "tilde"}, {"x~1y", "slash"}, {"x%7E0y", "tilde"}}
+	c := cases[verifChoose("case", len(cases))]
+	external := verifChoose("external", 2) == 1
+	files := map[string]string{"/r/other.json": `{"components":{"schemas":{` + comps + `}}}`}
+	ref := "#/components/schemas/" + c.frag
+	if external {
+		ref = "other.json" + ref
+	}
+	rootText := `{"openapi":"3.0.0","info":{"title":"t","version":"1"},"paths":{},"components":{"schemas":{"User":{"$ref":"` + ref + `"},` + comps + `}}}`
+	doc, err := verifLoadFiles(rootText, files)
+	verifAssert(err == nil && doc != nil, "C02 fragment encoding: the document loads")
+	if err != nil || doc == nil {
+		return
+	}
+	u := doc.Components.Schemas["User"]
+	verifAssert(u != nil && u.Value != nil && u.Value.Description == c.want, "C02 fragment encoding: the reference resolves to the component its pointer, percent-decoded once, names (internal and external form alike)")
+	verifReach("end")
+}
